@@ -17,7 +17,7 @@ def handle : Handler := fun j a => do
     repl := if isRepl then some { source := jStrOr tj "source" "", io := jBoolOr tj "io" false, sql := jBoolOr tj "sql" false,
                                    ioErrno := jIntOr tj "io_errno" 0, sqlErrno := jIntOr tj "sql_errno" 0,
                                    executed := jStrOr tj "executed" "", retrieved := jStrOr tj "retrieved" "",
-                                   lag := (jOpt tj "lag").map fun v => numToInt v 0,
+                                   lag := (jOpt tj "lag").map fun v => numToScaled v 0,
                                    logFile := jStrOr tj "log_file" "", logPos := jIntOr tj "log_pos" 0 } else none,
     executed := jStrOr tj "executed" "", semiMaster := jBoolOr tj "ss_master" false, semiSlave := jBoolOr tj "ss_slave" false,
     waitCount := jIntOr tj "wait_count" 0, flushLog := jIntOr tj "flush_log" 1, syncBinlog := jIntOr tj "sync_binlog" 1 }
